@@ -194,10 +194,12 @@ def tok_of_text(t):
     return ["w", t]
 
 
-def tokenize(text):
+def tokenize(text, fmt=None):
     lines = text.split("\n")
     if lines and lines[-1] == "":
         lines.pop()
+    if fmt == "off":   # a # starts a comment in an OFF file (import_off removes it before splitting)
+        lines = [ln.split("#")[0] for ln in lines]
     return [[tok_of_text(t) for t in ln.split()] for ln in lines]
 
 
@@ -425,7 +427,7 @@ def oracle_geogram_attrs(mi, adj, got, ignore):
     F = [] if "faces" in ign else (mi["F"] or [])
     C = [] if "cells" in ign else (mi["C"] or [])
     sizes = {"V": len(mi["V"]), "E": nE, "F": len(F), "FC": sum(len(f) for f in F), "C": len(C),
-             "CC": sum(len(c) for c in C), "CF": sum(len(c) for c in C)}
+             "CC": sum(len(c) for c in C), "CF": sum(4 if len(c) == 4 else 6 for c in C)}
     for ck in ("V", "E", "F", "FC", "C", "CC", "CF"):
         orig = (mi.get("attrs") or {}).get(ck, [])
         if ck != "V" and sizes[{"E": "E", "F": "F", "FC": "F", "C": "C", "CC": "C", "CF": "C"}[ck]] == 0:
@@ -444,7 +446,7 @@ def oracle_geogram_attrs(mi, adj, got, ignore):
             dv = dense_from_sparse(b, sizes[ck])
             if [norm_val(v) for v in dv] != [norm_val(v) for v in vals]:
                 return "values of attribute %r of %s differ after save/load: saved %s, loaded %s" % (name, ck, json.dumps(vals)[:200], json.dumps(dv)[:200])
-        if ck == "CF" and C:
+        if ck == "CF" and C and all(len(c) == 4 for c in C):
             if "opposite_cell" not in back:
                 return "cell adjacency is not read back"
             dv = dense_from_sparse(back["opposite_cell"], sizes["CF"])
@@ -921,6 +923,117 @@ def raw_obs_term(r):
     return "None" if r is None else "(Some %s)" % raw_term(dict(r, attrs={}))
 
 
+# ---------------------------------------------------------------------- the optional parts an independent writer may emit
+def fnum(b, rng=None):
+    return repr(b2f(b))
+
+
+def variant_files(fmt, mi, rng):
+    """[(label, text, expected content, known-finding key or None)]: legal files of the format for the mesh `mi` that use optional
+    parts of the format (colours, comments, extra sections, alternative layouts); the content they denote is that of ref_write"""
+    want = expected_load_of_ref(fmt, mi)
+    V, E, Fs, C = mi["V"], [list(e) for e in (mi["E"] or [])], (mi["F"] or []), (mi["C"] or [])
+    out = []
+    vl = [" ".join(fnum(c) for c in v) for v in V]
+    if fmt == "off":
+        if any(len(f) < 3 for f in Fs):
+            return []
+        colours = {"rgb-int": lambda i: " %d 255 0" % ((40 * i) % 256), "rgba-int": lambda i: " 1 2 3 255", "colormap-index": lambda i: " %d" % (i % 3),
+                   "rgb-float": lambda i: " 0.25 0.5 1.0", "rgba-float": lambda i: " 0.25 0.5 1.0 0.75"}
+        fl = lambda col: ["%d  %s%s" % (len(f), " ".join(str(x) for x in f), col(i)) for i, f in enumerate(Fs)]
+        if Fs:
+            k = rng.choice(sorted(colours))
+            out.append(("face colours " + k, "\n".join(["OFF", "%d %d 0" % (len(V), len(Fs))] + vl + fl(colours[k])) + "\n", want, None))
+        out.append(("comments", "\n".join(["# made by an independent writer", "OFF # header", "%d %d %d # vertices faces edges" % (len(V), len(Fs), len(E)), "# vertices"]
+                                          + vl + ["# faces"] + fl(lambda i: "")) + "\n", want, None))
+        out.append(("counts on the OFF line", "\n".join(["OFF %d %d 0" % (len(V), len(Fs))] + vl + fl(lambda i: "")) + "\n", want, None))
+        out.append(("blank lines and blanks", "\n".join(["OFF  ", "", "  %d   %d\t0  " % (len(V), len(Fs)), ""] + ["  " + x + "  " for x in vl] + [""]
+                                                        + ["  " + x + " " for x in fl(lambda i: "")] + ["", ""]) + "\n", want, None))
+    elif fmt == "obj":
+        if any(len(f) < 3 for f in Fs):
+            return []
+        head = ["# independent writer", "mtllib scene.mtl", "o object_1", "g group_a"]
+        vts = ["vt %s %s" % (repr(0.25 * (i % 4)), repr(0.5)) for i in range(max(1, sum(len(f) for f in Fs)))]
+        vns = ["vn 0.0 0.0 1.0", "vn 1.0 0.0 0.0"]
+        forms = {"v/vt/vn": lambda v, c: "%d/%d/%d" % (v + 1, c + 1, 1 + c % 2), "v//vn": lambda v, c: "%d//%d" % (v + 1, 1 + c % 2),
+                 "v/vt": lambda v, c: "%d/%d" % (v + 1, c + 1)}
+        k = rng.choice(sorted(forms))
+        fl, c = [], 0
+        for f in Fs:
+            toks = []
+            for v in f:
+                toks.append(forms[k](v, c))
+                c += 1
+            fl.append("f " + " ".join(toks))
+        el = ["l %d %d" % (a + 1, b + 1) for a, b in E]
+        out.append(("statements o g usemtl s mtllib vt vn, faces as " + k,
+                    "\n".join(head + ["v " + x + (" 1.0" if i % 2 else "") for i, x in enumerate(vl)] + vts + vns + ["usemtl mat", "s off"] + el + ["s 1"] + fl + ["# end"]) + "\n",
+                    want, None))
+        # polylines: consecutive edges that share an endpoint are written as one l statement
+        chains = []
+        for a, b in E:
+            if chains and chains[-1][-1] == a:
+                chains[-1].append(b)
+            else:
+                chains.append([a, b])
+        if any(len(ch) > 2 for ch in chains):
+            out.append(("polyline statements", "\n".join(["v " + x for x in vl] + ["l " + " ".join(str(x + 1) for x in ch) for ch in chains]
+                                                        + ["f " + " ".join(str(v + 1) for v in f) for f in Fs]) + "\n", want, None))
+        if Fs:
+            n = len(V)
+            out.append(("relative (negative) indices", "\n".join(["v " + x for x in vl] + ["f " + " ".join(str(v - n) for v in f) for f in Fs]) + "\n",
+                        dict(want, E=[]), "obj/relative-indices"))
+    elif fmt == "mesh":
+        sections = ["Corners", "1", "1", "RequiredVertices", "1", "1", "Ridges", "0", "Normals", "1", "0.0 0.0 1.0", "NormalAtVertices", "1", "1 1",
+                    "Tangents", "0"] if V else []
+        body = [" MeshVersionFormatted 2", "", " Dimension", " 3", "# a comment line", " Vertices", "   %d" % len(V)] + ["  %s  %d" % (x, 10 + i) for i, x in enumerate(vl)]
+        blocks = []
+        for kw, ar, els in (("Edges", 2, E), ("Triangles", 3, Fs), ("Quadrilaterals", 4, Fs), ("Tetrahedra", 4, C), ("Hexahedra", 8, C)):
+            sel = [e for e in els if len(e) == ar]
+            if sel:
+                blocks.append([" " + kw, " %d" % len(sel)] + [" " + " ".join(str(i + 1) for i in e) + " %d" % (7 * k % 5) for k, e in enumerate(sel)])
+        mid = []
+        for k, bl in enumerate(blocks):
+            mid += bl
+            if k == 0:
+                mid += sections
+        if not blocks:
+            mid = sections
+        out.append(("optional sections, labels, indentation", "\n".join(body + mid + ["", " End"]) + "\n", want, None))
+        inline = ["MeshVersionFormatted 2", "Dimension 3", "Vertices %d" % len(V)] + [x + " 0" for x in vl]
+        for bl in blocks:
+            inline += [bl[0].strip() + " " + bl[1].strip()] + [x.strip() for x in bl[2:]]
+        if V:
+            out.append(("counts on the keyword lines", "\n".join(inline + ["End"]) + "\n", want, "mesh/count-on-keyword-line"))
+        if V and all(v[2] == 0 for v in V):
+            d2 = ["MeshVersionFormatted 2", "Dimension 2", "Vertices", "%d" % len(V)] + [" ".join(fnum(c) for c in v[:2]) + " 5" for v in V]
+            for bl in blocks:
+                d2 += [x.strip() for x in bl]
+            out.append(("two-dimensional file", "\n".join(d2 + ["End"]) + "\n", want, "mesh/dimension-2"))
+    elif fmt == "xyz":
+        out.append(("leading count, blank lines, normals columns", "\n".join(["%d" % len(V), ""] + [x + " 0.0 0.0 1.0  " for x in vl] + ["", ""]) + "\n", want, None))
+    elif fmt == "tet":
+        out.append(("trailing blanks", "\n".join(["%d vertices  " % len(V), "%d tets" % len(C)] + [x + "  " for x in vl]
+                                                 + ["%d  %s " % (len(c), " ".join(str(i) for i in c)) for c in C]) + "\n", want, None))
+    return out
+
+
+def oracle_load(fmt, ld, want):
+    """an independent writer's file loaded by mouette against the content it denotes"""
+    if ld is None:
+        return "no observation"
+    if "raw_exc" in ld:
+        return "loading raised %s: %s" % (ld["raw_exc"]["exc"], ld["raw_exc"]["msg"])
+    for k, what in (("V", "vertices"), ("E", "edges"), ("F", "faces"), ("C", "cells")):
+        if ld["raw"][k] != want[k]:
+            return "%s load as %s, the file says %s" % (what, json.dumps(ld["raw"][k])[:240], json.dumps(want[k])[:240])
+    if "class_exc" in ld:
+        return "building the loaded mesh raised %s: %s" % (ld["class_exc"]["exc"], ld["class_exc"]["msg"])
+    if "class" in ld and ld["class"] != implied_class(want):
+        return "loads as a %s, its content implies %s" % (ld["class"], implied_class(want))
+    return None
+
+
 # ---------------------------------------------------------------------- binary STL
 def f32bits(b64):
     """binary32 pattern of the IEEE rounding of a double (+-inf beyond the binary32 range, as the native-mode struct.pack does); numpy, not struct"""
@@ -1151,6 +1264,7 @@ def run(ctx):
     extra_batches = []
     lv_dbg = []
     fails_files = []
+    fails_load = []
     save_terms, load_terms, rt_terms, stl_terms = [], [], [], []
     save_idx, load_idx, stl_idx = [], [], []
     fails = []
@@ -1204,7 +1318,7 @@ def run(ctx):
                 continue
         mt = mesh_term(mi, with_attrs=geo)
         if "file" in r:
-            toks = tokenize_geogram(r["file"]["text"]) if geo else tokenize(r["file"]["text"])
+            toks = tokenize_geogram(r["file"]["text"]) if geo else tokenize(r["file"]["text"], fmt)
             if not printable(r["file"]["text"].replace("\n", " ")):
                 continue
             save_terms.append("(%s, %s, %s, Some %s)" % (FMT_COQ[fmt], sw, mt, lines_term(toks)))
@@ -1228,7 +1342,7 @@ def run(ctx):
             continue
         mi = r["mesh_in"]
         if "file" in r and printable(r["file"]["text"].replace("\n", " ")):
-            toks = tokenize(r["file"]["text"])
+            toks = tokenize(r["file"]["text"], fmt)
             got = ref_read(fmt, toks)
             rr_terms.append("(%s, %s, %s)" % (FMT_COQ[fmt], lines_term(toks), raw_obs_term(got)))
             want = expected_ref_read(fmt, mi, job.get("cfg") or {}, job.get("ignore"))
@@ -1239,6 +1353,35 @@ def run(ctx):
         if job.get("ignore") is None and not (job.get("cfg") or {}):
             rw_jobs.append({"k": "load", "fmt": fmt, "text": text_of_lines(ref_write(fmt, mi))})
             rw_idx.append(idx)
+    # the optional parts of each format, as an independent writer may use them
+    var_jobs, var_meta = [], []
+    seen_fmt_kind = set()
+    for idx, (job, r) in enumerate(zip(jobs, res)):
+        fmt = job["fmt"]
+        if fmt not in REF_FORMATS or "mesh_in" not in r or not mesh_modelled(r["mesh_in"]) or job.get("ignore") is not None or (job.get("cfg") or {}):
+            continue
+        mi = r["mesh_in"]
+        if fmt == "mesh" and ctx.rng.random() < 0.3 and mi["V"]:
+            mi = dict(mi, V=[[v[0], v[1], 0] for v in mi["V"]])     # a planar copy, for the two-dimensional Medit layout
+        for label, text, want, kf in variant_files(fmt, mi, ctx.rng):
+            if not quick or (fmt, label.split(" ")[0]) not in seen_fmt_kind or ctx.rng.random() < 0.25:
+                seen_fmt_kind.add((fmt, label.split(" ")[0]))
+                var_jobs.append({"k": "load", "fmt": fmt, "text": text})
+                var_meta.append((fmt, label, want, kf))
+    var_res = run_jobs(var_jobs)
+    var_terms = []
+    for (fmt, label, want, kf), j2, r2 in zip(var_meta, var_jobs, var_res):
+        ld = r2.get("load")
+        ctx.count("independent writer, optional parts: %s %s" % (fmt, label))
+        msg = oracle_load(fmt, ld, want)
+        if msg:
+            fails_load.append((fmt, label, j2, want, msg, kf))
+        if ld is not None and printable(j2["text"].replace("\n", " ").replace("\t", " ")):
+            ot, ct = obs_raw_term(ld)
+            if ot is not None:
+                var_terms.append("(%s, %s, %s, %s)" % (FMT_COQ[fmt], lines_term(tokenize(j2["text"], fmt)), ot, ct))
+    extra_batches.append(("refvar", var_terms, "check_load", "(fmt * list zline * option zraw * option (option string))"))
+
     geo_jobs, geo_idx = [], []
     for idx, (job, r) in enumerate(zip(jobs, res)):
         if job["fmt"] != "geogram_ascii" or "mesh_in" not in r or not mesh_modelled(r["mesh_in"]):
@@ -1290,7 +1433,7 @@ def run(ctx):
             fails.append((idx, "a file written by an independent writer loads as a %s, its content implies %s" % (ld["class"], implied_class(want))))
         ot, ct = obs_raw_term(ld)
         if ot is not None:
-            rw_terms.append("(%s, %s, %s, %s, %s)" % (FMT_COQ[fmt], mesh_term(mi), lines_term(tokenize(j2["text"])), ot, ct))
+            rw_terms.append("(%s, %s, %s, %s, %s)" % (FMT_COQ[fmt], mesh_term(mi), lines_term(tokenize(j2["text"], fmt)), ot, ct))
 
     # ---- variant / malformed stream: edited copies of the files, mouette's importer against the model's parser
     lv_jobs, lv_meta = [], []
@@ -1300,7 +1443,7 @@ def run(ctx):
         if fmt == "stl" or "file" not in r or not printable(r["file"]["text"].replace("\n", " ")):
             continue
         geo = fmt == "geogram_ascii"
-        base = tokenize_geogram(r["file"]["text"]) if geo else tokenize(r["file"]["text"])
+        base = tokenize_geogram(r["file"]["text"]) if geo else tokenize(r["file"]["text"], fmt)
         for _ in range(nvar):
             kind, L = mutate_lines(ctx.rng, base, geo)
             if ctx.rng.random() < 0.3:
@@ -1308,7 +1451,7 @@ def run(ctx):
                 kind += "+" + kind2
             text = text_of_lines(L)
             # the edit must survive re-tokenisation (the model is compared on the tokens of the file actually loaded)
-            L2 = tokenize_geogram(text) if geo else tokenize(text)
+            L2 = tokenize_geogram(text) if geo else tokenize(text, fmt)
             lv_jobs.append({"k": "load", "fmt": fmt, "text": text})
             lv_meta.append((fmt, kind, L2))
     # files of the test-suite's data directory: written by other programs (geogram, a Fortran mesh writer, Blender...)
@@ -1321,7 +1464,7 @@ def run(ctx):
             if printable(text.replace("\n", " ").replace("\t", " ")) and "/" not in text.replace("//", ""):
                 geo = fmt == "geogram_ascii"
                 lv_jobs.append({"k": "load", "fmt": fmt, "text": text})
-                lv_meta.append((fmt, "file " + rel_, tokenize_geogram(text) if geo else tokenize(text)))
+                lv_meta.append((fmt, "file " + rel_, tokenize_geogram(text) if geo else tokenize(text, fmt)))
                 real.append(len(lv_jobs) - 1)
     lv_res = run_jobs(lv_jobs)
     for k in real:
@@ -1391,6 +1534,13 @@ def run(ctx):
             ctx.log("   load: %s" % json.dumps(res[j].get("load"))[:400])
 
     # ---- verdicts
+    rep_load = set()
+    for fmt, label, j2, want, msg, kf in sorted(fails_load, key=lambda x: len(x[2].get("text", ""))):
+        key = kf or "%s/independent-writer/%s" % (fmt, label.split(",")[0].replace(" ", "-"))
+        if key in rep_load:
+            continue
+        rep_load.add(key)
+        ctx.violation("%s file of an independent writer (%s): %s" % (fmt, label, msg), {"load_job": j2, "want": want, "label": label, "class": key}, key=key)
     for msg in fails_files:
         ctx.violation("file written by another program: " + msg, {"file": msg}, key="thirdparty/" + msg.split(":")[0])
     reported = set()
@@ -1416,6 +1566,13 @@ def run(ctx):
 
 
 def replay(ctx, data):
+    if "load_job" in data:
+        r = run_jobs([data["load_job"]])[0]
+        print("file:\n" + data["load_job"].get("text", "")[:1500])
+        print("observed:", json.dumps({k: v for k, v in (r.get("load") or r).items() if k != "loaded"})[:1500])
+        m = oracle_load(data["load_job"]["fmt"], r.get("load"), data["want"])
+        print("FAILS: " + m if m else "passes")
+        return 1 if m else 0
     if "job" not in data:
         print("replay file names no concrete input:", json.dumps(data)[:400])
         return 1
